@@ -64,7 +64,11 @@ strengthening of that check; both facts are recorded in the last column. The rev
 Rounds: 1–3 and 4 are black-box rounds (authors saw only the property text; each miss led to a strengthening, described in
 the history column and in §12); `4w` are the white-box candidates of `design_notes/ADVERSARY.md` (authors read `/verif`);
 round 5 was written after the last hardening and is a held-out measurement: nothing was changed for it except where the
-history column says so.
+history column says so; rounds 6 and 7 (session 4: two fresh black-box changes per property, ten properties each, authors
+saw only the property text and a scratch worktree) are again measure-then-strengthen rounds - the history column gives the
+FIRST result of the check as it stood and what was generalised after a miss (round 6: 17 of 20 caught with a failing input at
+first, C02-61 only through the broken tie, C13-61 and C13-62 silent; all 20 caught with a failing input after the
+strengthenings, which also catch round 5's C12-51).
 
 The column *latest batch run* is written by `tools/batchtest.py` + `tools/merge_results.py` (quick tier, the check run
 exactly as registered, against a scratch worktree with the change applied): `violation with failing input` = caught with a
